@@ -60,7 +60,7 @@ func init() {
 		{Name: "storing nil skips the release of the old value", File: vb, Old: "\tinsts = append(insts, addr.EmitPush()...)                       // a\n\tinsts = append(insts, v.EmitPush()...)                          // a v", New: "\tif v.Kind() == ValueKindConst && v.Name() == \"0\" {\n\t\tinsts = append(insts, addr.EmitPush()...)\n\t\tinsts = append(insts, wat.NewInstConst(wat.U32{}, \"0\"))\n\t\tinsts = append(insts, wat.NewInstStore(toWatType(v.Type()), offset, 1))\n\t\treturn\n\t}\n\tinsts = append(insts, addr.EmitPush()...)                       // a\n\tinsts = append(insts, v.EmitPush()...)                          // a v", Expect: "overwrite-release :: aBlock.emitStoreToAddr: every store releases the old value"},
 		{Name: "function epilogue stops releasing registers", File: cf, Old: "\t\t\twir_fn.Insts = append(wir_fn.Insts, i.EmitRelease()...)\n", New: "\t\t\t_ = i\n", Expect: "epilogue-release"},
 		{Name: "epilogue releases before pushing the results", File: cf, Old: "\tfor _, r := range g.var_rets {\n\t\twir_fn.Insts = append(wir_fn.Insts, r.EmitPush()...)\n\t}\n\n\tfor _, i := range g.registers {\n\t\tif g.none_rc_registers == nil || !g.none_rc_registers[i] {\n\t\t\twir_fn.Insts = append(wir_fn.Insts, i.EmitRelease()...)\n\t\t}\n\t}\n", New: "\tfor _, i := range g.registers {\n\t\tif g.none_rc_registers == nil || !g.none_rc_registers[i] {\n\t\t\twir_fn.Insts = append(wir_fn.Insts, i.EmitRelease()...)\n\t\t}\n\t}\n\n\tfor _, r := range g.var_rets {\n\t\twir_fn.Insts = append(wir_fn.Insts, r.EmitPush()...)\n\t}\n", Expect: "epilogue-release"},
-		{Name: "new value stored into a register without releasing the old one", File: cf, Old: "\t\t\t\ts = append(s, v.value.EmitPop()...)\n\t\t\t} else {", New: "\t\t\t\ts = append(s, v.value.EmitPopNoRelease()...)\n\t\t\t} else {", Expect: "overwrite-release"},
+		{Name: "new value stored into a register without releasing the old one", File: cf, Old: "\t\t\t\t\ts = append(s, v.value.EmitPop()...)\n\t\t\t\t}\n\t\t\t} else {", New: "\t\t\t\t\ts = append(s, v.value.EmitPopNoRelease()...)\n\t\t\t\t}\n\t\t\t} else {", Expect: "overwrite-release"},
 		{Name: "struct OnFree skips nested struct members", File: vs, Old: "\t\tif istruct, ok := member_type.(iStruct); ok {\n\t\t\trfs := istruct.genRawFree()\n\t\t\tfor _, rf := range rfs {\n\t\t\t\tret = append(ret, fn_offset_pair{fn: rf.fn, offset: rf.offset + member._start})\n\t\t\t}\n\t\t} else {", New: "\t\tif _, ok := member_type.(iStruct); ok {\n\t\t} else {", Expect: "onfree-completeness :: Struct.genRawFree"},
 		{Name: "block OnFree forgets to release", File: vb, Old: "\tf.Insts = append(f.Insts, wat.NewInstLoad(wat.U32{}, 0, 1))\n\tf.Insts = append(f.Insts, wat.NewInstCall(\"runtime.Block.Release\"))\n", New: "\tf.Insts = append(f.Insts, wat.NewInstLoad(wat.U32{}, 0, 1))\n\tf.Insts = append(f.Insts, wat.NewInstDrop())\n", Expect: "onfree-completeness :: Block.OnFree"},
 		{Name: "release skips the per-item callback", File: hp, Old: "\t\t\t\t\tlocal.get $data_ptr\n\t\t\t\t\tlocal.get $free_func\n\t\t\t\t\tcall_indirect (type $$OnFree)\n", New: "", Expect: "release-recursion"},
